@@ -181,6 +181,15 @@ Definition strip_trailing_sep (s : list N) : list N :=
 Definition S_IFDIR : N := 16384.   (* 0040000 *)
 Definition S_IFREG : N := 32768.   (* 0100000 *)
 Definition has_bit (mode bit : N) : bool := negb (N.land mode bit =? 0).
+(* the file type field of st_mode and the seven POSIX types (values tied to sys/stat.h by Link.v) *)
+Definition S_IFMT : N := 61440.    (* 0170000 *)
+Definition S_IFIFO : N := 4096.    (* 0010000 *)
+Definition S_IFCHR : N := 8192.    (* 0020000 *)
+Definition S_IFBLK : N := 24576.   (* 0060000 *)
+Definition S_IFLNK : N := 40960.   (* 0120000 *)
+Definition S_IFSOCK : N := 49152.  (* 0140000 *)
+Definition ftype (mode : N) : N := N.land mode S_IFMT.
+Definition posix_types : list N := [S_IFIFO; S_IFCHR; S_IFDIR; S_IFBLK; S_IFREG; S_IFLNK; S_IFSOCK].
 
 Inductive response :=
 | R404
